@@ -92,10 +92,14 @@ impl Header {
         // value, so a future REPE revision can assign meaning to these bits
         // without breaking this receiver.
 
-        let expected = HEADER_SIZE as u64 + query_length + body_length;
-        if length != expected {
+        // The three length fields are untrusted: their sum can exceed u64, in
+        // which case no `length` value can be consistent with them.
+        let expected = (HEADER_SIZE as u64)
+            .checked_add(query_length)
+            .and_then(|sum| sum.checked_add(body_length));
+        if expected != Some(length) {
             return Err(RepeError::LengthMismatch {
-                expected,
+                expected: expected.unwrap_or(u64::MAX),
                 got: length,
             });
         }
